@@ -12,6 +12,10 @@ FSM_FILE = 'yabgp/core/fsm.py'
 
 
 def check(prog, rep, tier):
+    rep.rule('R13.e', 'who may start manually: manual_start is referenced (called or handed over as a callback) only by the '
+                      'REST layer and by BGPPeering itself; everything the agent schedules on its own goes through '
+                      'automatic_start, which honours the operator flag')
+    manual_start_callers(prog, rep)
     rep.rule('R13.a', 'manual stop in every state: Cease iff Established, every BGPTimer off, connection '
                       'closed, automatic start forbidden, Idle')
     rep.rule('R13.b', 'Idle-exit gate: a path leaves Idle (or emits a BGP message from Idle) only on manual '
@@ -188,3 +192,28 @@ def check(prog, rep, tier):
     else:
         rep.bad('R13.d', 'rest-manual_stop', file=f.file, line=f.node.lineno,
                 found='%d call(s) of manual_stop' % len(calls), key='rest-manual_stop')
+
+
+
+def manual_start_callers(prog, rep):
+    import ast
+    from ..front import src_of
+    n = 0
+    bad = []
+    for f in prog.all_functions():
+        for x in ast.walk(f.node):
+            if isinstance(x, ast.Attribute) and x.attr == 'manual_start' and isinstance(x.ctx, ast.Load):
+                n += 1
+                mod = f.module.name
+                ok = mod.startswith('yabgp.api.') or (mod == 'yabgp.core.factory' and f.name == 'manual_start')
+                if not ok:
+                    bad.append((f, x))
+    for f, x in bad:
+        key = 'manual-start-ref:%s' % f.qualname
+        rep.bad('R13.e', key, file=f.file, line=x.lineno, func=f.qualname,
+                found='%s references %s: a start scheduled by the agent itself re-enables automatic start and '
+                      'connects, overriding an operator stop given in the meantime' % (f.qualname, src_of(x)),
+                expected='automatic_start for everything that is not an operator request', key=key)
+    if not bad:
+        rep.ok('R13.e', 'manual-start-refs', found='%d reference(s), all in the REST layer / BGPPeering.manual_start' % n)
+    rep.floor('R13.e', 'manual_start references', n, 3)
